@@ -8,4 +8,8 @@ CLAIMED["C19"] = {
   "text": "FormatDecoder.Next (every element type, symbolic size field and body), IndexFromReader and Protocol.ReadMessage are executed symbolically on arbitrary input bytes; every Go run-time check (slice, index, make, nil) and every allocation (<= 2*len(input)+64KiB) is a z3 obligation on every path, and accepted elements must fit in the input.",
   "note": "Bounds: one element (quick) with size in the windows [0,112) u [2^63-24,2^63+24) u [2^64-41,2^64) (thorough: all 2^64 values), body 0/1/8/33 bytes; streams <= 48 bytes (thorough 96); index files <= 152 (thorough 192) bytes behind fixed index/table type fields; protocol messages <= 40 bytes. ArchiveDecoder.Next and HTTPIndexHandler.put are exercised under C18/C05/C15 harnesses, not here. Trusted: engine, z3.",
 }
+CLAIMED["C04"] = {
+  "text": "Index.WriteTo -> bytes -> IndexFromReader executed symbolically for every index of N chunks with symbolic parameters, sizes and IDs: z3 shows the round trip is the identity, that an independent in-harness parser of the caibx layout recovers the same table (header 48, tail offset 48, tail size 16+40N+40, marker), that every strict prefix is rejected, that the digest flag must match the configured digest, and that any accepted table (arbitrary rows) has non-decreasing offsets, no chunk above the maximum and re-encodes byte-identically when its tail fields are canonical.",
+  "note": "Bounds: N<=3 chunks quick / <=6 thorough (tables: <=3 / <=5 rows); sizes < 2^40 each, first chunk non-empty (offset 0 is the table terminator). Index stores (local file, stdin/stdout, HTTP, S3) are not encoded: the claim is for the codec they all share. Trusted: engine, z3, in-harness reference parser.",
+}
 NA = {}
